@@ -390,6 +390,78 @@ JNP.power = lambda a, p: values.power(a, p)
 JNP.square = lambda a: const_arr(a) * const_arr(a)
 
 
+# functional spellings of the operators (same element-wise contracts as the operators themselves)
+def _op2(name, fn):
+    def f(a, b):
+        _u("jnp.add/subtract/multiply/divide/negative/reciprocal/comparison functions = the corresponding operators")
+        A = a if isinstance(a, SArr) else const_arr(a)
+        return fn(A, b)
+    f.__name__ = name
+    return f
+
+
+JNP.add = _op2("add", lambda a, b: a + b)
+JNP.subtract = _op2("subtract", lambda a, b: a - b)
+JNP.multiply = _op2("multiply", lambda a, b: a * b)
+JNP.divide = _op2("divide", lambda a, b: a / b)
+JNP.true_divide = JNP.divide
+JNP.equal = _op2("equal", lambda a, b: a == b)
+JNP.not_equal = _op2("not_equal", lambda a, b: a != b)
+JNP.less = _op2("less", lambda a, b: a < b)
+JNP.less_equal = _op2("less_equal", lambda a, b: a <= b)
+JNP.greater = _op2("greater", lambda a, b: a > b)
+JNP.greater_equal = _op2("greater_equal", lambda a, b: a >= b)
+JNP.negative = lambda a: (_u("jnp.add/subtract/multiply/divide/negative/reciprocal/comparison functions = the corresponding operators"), -const_arr(a))[1]
+JNP.reciprocal = lambda a: (_u("jnp.add/subtract/multiply/divide/negative/reciprocal/comparison functions = the corresponding operators"), 1 / const_arr(a))[1]
+JNP.shape = lambda a: const_arr(a).shape
+JNP.ndim = lambda a: const_arr(a).ndim
+JNP.e = math.e
+
+
+def _transpose(a, axes=None):
+    _u("jnp.transpose / swapaxes = permutation of axes")
+    A = const_arr(a)
+    axes = tuple(reversed(range(A.ndim))) if axes is None else tuple(ax % A.ndim for ax in axes)
+    return values.transpose(A, axes)
+
+
+def _swapaxes(a, ax1, ax2):
+    A = const_arr(a)
+    perm = list(range(A.ndim))
+    perm[ax1 % A.ndim], perm[ax2 % A.ndim] = perm[ax2 % A.ndim], perm[ax1 % A.ndim]
+    return _transpose(A, perm)
+
+
+def _squeeze(a, axis=None):
+    _u("jnp.squeeze(axis) removes the listed size-1 axes")
+    A = const_arr(a)
+    if axis is None:
+        axis = tuple(i for i, d in enumerate(A.shape) if isinstance(d, int) and d == 1)
+    axis = (axis,) if isinstance(axis, int) else tuple(axis)
+    axis = tuple(ax % A.ndim for ax in axis)
+    for ax in axis:
+        if not (isinstance(A.shape[ax], int) and A.shape[ax] == 1):
+            raise ValueError("cannot select an axis to squeeze out which has size not equal to one")
+    key = tuple(0 if i in axis else slice(None) for i in range(A.ndim))
+    return values.getitem(A, key)
+
+
+def _broadcast_to(a, shape):
+    _u("jnp.broadcast_to")
+    A = const_arr(a)
+    return A + SArr(tuple(shape), lambda idx: 0, "real") if A.kind != "bool" else values.where(A, SArr(tuple(shape), lambda idx: True, "bool"), False)
+
+
+JNP.transpose = _transpose
+JNP.swapaxes = _swapaxes
+JNP.squeeze = _squeeze
+JNP.broadcast_to = _broadcast_to
+JNP.full_like = lambda a, v, dtype=None: const_arr(a) * 0 + v
+JNP.hstack = lambda arrs: values.concatenate(list(arrs), 0 if const_arr(arrs[0]).ndim == 1 else 1)
+JNP.vstack = lambda arrs: values.concatenate([x if const_arr(x).ndim > 1 else values.expand_dims(x, 0) for x in arrs], 0)
+JNP.append = lambda a, v, axis=None: values.concatenate([const_arr(a), const_arr(v) if const_arr(v).ndim else values.expand_dims(const_arr(v), 0)], 0 if axis is None else axis)
+
+
 def _red(op):
     def f(x, axis=None, keepdims=False, where=None, dtype=None):
         _u(f"jnp.{op}(axis, keepdims) = finite {op} over the listed axes")
